@@ -23,7 +23,7 @@ for d in sorted(glob.glob(V + '/seeded/*/')):
     title = lines[0] if lines else ''
     title = re.sub(r'^(Seed|Change)\s+[AB]\s*[-–—:]*\s*', '', title)[:150].replace('|', '/')
     r = res[name]
-    by = ', '.join(r.get('reported_by', [])) or '—'
+    by = ', '.join(r.get('reported_by', [])) or ('(patch no longer applies: a later repair of /repo touched its lines)' if r.get('verdict') == 'not-applicable' else '— (exit 2 only: %s)' % ', '.join(r.get('analysis_error', [])) if r.get('analysis_error') else '—')
     first = (r.get('first_report') or '')
     mm = re.search(r'\[(R-[A-Z-]+)\]\s+(\S+)', first)
     firsttxt = ('%s · %s' % (mm.group(1), mm.group(2))) if mm else ('(reported by another property\'s check)' if r.get('reported_by') else '')
@@ -33,7 +33,8 @@ direct = sum(1 for k, r in res.items() if r.get('verdict') == 'CAUGHT')
 other = sum(1 for k, r in res.items() if r.get('verdict') == 'caught-by-other')
 missed = sum(1 for k, r in res.items() if r.get('verdict') == 'MISSED')
 rows.append('')
-rows.append('%d seeded changes: %d reported by the check of the targeted property, %d by another property\'s check only, %d by none.' % (tot, direct, other, missed))
+na = sum(1 for k, r in res.items() if r.get('verdict') == 'not-applicable')
+rows.append('%d seeded changes: %d reported by the check of the targeted property, %d by another property\'s check only, %d by none, %d no longer applicable (their lines were repaired in /repo since).' % (tot, direct, other, missed, na))
 block('seeds', '\n'.join(rows))
 
 exp = json.load(open(V + '/sa/selftest/expected.json'))
